@@ -224,6 +224,12 @@ fn constructed() -> Vec<Yaml<'static>> {
         Yaml::Value(Scalar::FloatingPoint(OrderedFloat(1.0))),
         Yaml::Value(Scalar::FloatingPoint(OrderedFloat(f64::NAN))),
         Yaml::Value(Scalar::FloatingPoint(OrderedFloat(-0.0))),
+        Yaml::Value(Scalar::FloatingPoint(OrderedFloat(0.0))),
+        Yaml::Value(Scalar::FloatingPoint(OrderedFloat(f64::from_bits(0x7ff8_0000_0000_0001)))),
+        Yaml::Value(Scalar::FloatingPoint(OrderedFloat(-f64::NAN))),
+        Yaml::Value(Scalar::String("k".repeat(1025).into())),
+        Yaml::Value(Scalar::String("é".repeat(600).into())),
+        Yaml::Value(Scalar::String("k".repeat(5000).into())),
         Yaml::Value(Scalar::Null),
         Yaml::Value(Scalar::Boolean(true)),
         Yaml::Value(Scalar::String("true".into())),
@@ -238,6 +244,12 @@ fn constructed() -> Vec<Yaml<'static>> {
         Yaml::Mapping(Default::default()),
     ];
     let mut out = vec![];
+    // single-key mappings first (their key nodes form the scalar pool compared pairwise below)
+    for k in &keys {
+        let mut m = saphyr::Mapping::new();
+        m.insert(k.clone(), Yaml::Value(Scalar::Integer(10)));
+        out.push(Yaml::Mapping(m));
+    }
     for i in 0..keys.len() {
         for j in 0..keys.len() {
             let mut m = saphyr::Mapping::new();
@@ -254,7 +266,29 @@ fn eval_constructed(idx: usize, all: &[Yaml<'static>], acc: &mut Acc) {
     let y = &all[idx];
     let desc = format!("constructed#{idx}: {:?}", canon_yaml(y));
     l_yaml::run(std::slice::from_ref(y), &desc, "Yaml(constructed)", acc);
-    // pairwise eq => hash across the whole pool (sampled by neighbourhood to stay quadratic-free)
+    // pairwise eq => hash between the KEYS of the single-key mappings (0.0 / -0.0, NaN payloads,
+    // borrowed / owned strings ...), with the fixed-key hasher and with a LinkedHashMap's own hasher
+    if let Yaml::Mapping(m) = y {
+        if m.len() == 1 {
+            let k1 = m.keys().next().unwrap();
+            for other in all.iter() {
+                if let Yaml::Mapping(m2) = other {
+                    if m2.len() == 1 {
+                        let k2 = m2.keys().next().unwrap();
+                        if k1 == k2 {
+                            let mut h1 = m.hasher().build_hasher();
+                            k1.hash(&mut h1);
+                            let mut h2 = m.hasher().build_hasher();
+                            k2.hash(&mut h2);
+                            if fnv_hash(k1) != fnv_hash(k2) || h1.finish() != h2.finish() || m.get(k2).is_none() {
+                                acc.violation(Violation { key: "equal-keys-hash-differently nt=Yaml(constructed)".into(), expected: "equal keys hash equally and find each other's entries".into(), observed: format!("{:?} vs {:?}", canon_yaml(k1), canon_yaml(k2)), case: json!({"kind": "constructed", "index": idx}), size: 1 });
+                            }
+                        }
+                    }
+                }
+            }
+        }
+    }
     for other in all.iter().skip(idx).take(40) {
         if y == other && fnv_hash(y) != fnv_hash(other) {
             acc.violation(Violation { key: "equal-but-hash-differs nt=Yaml(constructed)".into(), expected: "equal nodes hash equally".into(), observed: format!("{:?} vs {:?}", canon_yaml(y), canon_yaml(other)), case: json!({"kind": "constructed", "index": idx}), size: 1 });
